@@ -708,3 +708,357 @@ def ab5(model):
         r.undec(f.node, 'single-token exit of arg_buffer not recognised')
         r.instances = 1
     return r
+
+
+# ----------------------------------------------------------------------------- TJ4 / TJ5 / TH8
+def _json_int_source(model, e, depth=3):
+    """does the integer expression come, unclamped, from json_get(.., int) ?"""
+    if isinstance(e, ast.Call) and T.call_name(e) == 'json_get' and len(e.args) == 3 \
+            and getattr(e.args[2], 'id', '') == 'int':
+        return e
+    if isinstance(e, ast.Call) and getattr(e.func, 'id', '') in ('min',):
+        return None                     # clamped from above
+    if isinstance(e, ast.Call) and getattr(e.func, 'id', '') == 'max':
+        # max(0, x) bounds from below only
+        for a in e.args:
+            s = _json_int_source(model, a, depth)
+            if s is not None:
+                return s
+        return None
+    if isinstance(e, ast.BinOp):
+        return _json_int_source(model, e.left, depth) or _json_int_source(model, e.right, depth)
+    if isinstance(e, ast.Name) and depth:
+        for v in T.resolve_local(model, e):
+            if v is not e:
+                s = _json_int_source(model, v, depth - 1)
+                if s is not None:
+                    return s
+    return None
+
+
+def tj4(model):
+    r = RuleResult('TJ4', 'a number taken from the proofreader answer is never used as a '
+                   'repetition count (text * n) without an upper bound: the answer controls '
+                   'the memory the report needs', floor=1)
+    n_mul = 0
+    for f in model.all_funcs():
+        if isinstance(f.node, ast.Lambda) or not f.mod.short.startswith('shell'):
+            continue
+        for n in iter_scope(f.node):
+            if isinstance(n, ast.BinOp) and isinstance(n.op, ast.Mult):
+                for seq, cnt in ((n.left, n.right), (n.right, n.left)):
+                    if isinstance(seq, (ast.Constant, ast.List)) and not (
+                            isinstance(seq, ast.Constant) and not isinstance(seq.value, str)):
+                        n_mul += 1
+                        src = _json_int_source(model, cnt)
+                        if src is not None:
+                            r.fail(n, 'the repetition count %s comes from the answer (%s) without an '
+                                   'upper bound: a huge value ends in MemoryError'
+                                   % (unparse(cnt), unparse(src)[:40]),
+                                   witness='context.length = 10**11 in an otherwise valid answer, --output plain')
+                        else:
+                            r.ok(n, 'repetition count is not an unbounded number of the answer',
+                                 nontrivial=isinstance(cnt, ast.Name), sample=False)
+    r.instances = max(r.instances, 1)
+    return r
+
+
+def tj5(model):
+    r = RuleResult('TJ5', 'strings of the answer can contain anything JSON can express, also lone '
+                   'surrogates (\\ud800), which no output stream can encode: json_get makes str '
+                   'values encodable before they reach a report', floor=1)
+    f = model.func('shell.shell.json_get') if model.has_func('shell.shell.json_get') else None
+    if f is None:
+        raise AnalysisError('anchor vanished: json_get')
+    enc = [n for n in iter_scope(f.node) if isinstance(n, ast.Call) and T.call_name(n) == 'encode'
+           and any(isinstance(a, ast.Constant) and a.value in ('replace', 'backslashreplace', 'ignore',
+                                                               'xmlcharrefreplace', 'namereplace')
+                   for a in list(n.args) + [k.value for k in n.keywords])]
+    if enc:
+        r.ok(enc[0], 'str values are re-encoded with an error handler', nontrivial=True)
+    else:
+        r.fail(f.node, 'json_get returns str values as decoded: a lone surrogate in a message, a '
+               'replacement or the context ends in UnicodeEncodeError when the report is written',
+               stmt='json_get returns str unchanged',
+               witness='"message": "\\ud800" in an otherwise valid answer, --output plain / html / xml')
+    return r
+
+
+def th8(model):
+    r = RuleResult('TH8', 'HTML report: text that goes into the title attribute of a highlight '
+                   'contains no row separator "<br>\\n" (protect_html turns every line break of a '
+                   'message into one, and add_line_numbers counts rows by it)', floor=1)
+    f = model.func('shell.genhtml.begin_match')
+    calls = [n for n in ast.walk(f.node) if isinstance(n, ast.Call) and T.call_name(n) == 'protect_html']
+    if not calls:
+        r.undec(f.node, 'no protect_html call in begin_match')
+        r.instances = 2
+        return r
+    # a local wrapper that removes the separator again?
+    def neutralised(c):
+        p = c._parent
+        # protect_html(x).replace('<br>\n', ..)
+        if isinstance(p, ast.Attribute) and p.attr == 'replace' and isinstance(p._parent, ast.Call) \
+                and p._parent.args and isinstance(p._parent.args[0], ast.Constant) and '<br>' in str(p._parent.args[0].value):
+            return True
+        # argument had its line breaks removed before
+        a = c.args[0] if c.args else None
+        for x in ast.walk(a) if a is not None else []:
+            if isinstance(x, ast.Call) and T.call_name(x) in ('replace', 'sub') and any(
+                    isinstance(y, ast.Constant) and y.value in ('\n', r'\n') for y in x.args):
+                return True
+        return False
+    inner = {d.name: d for d in ast.walk(f.node) if isinstance(d, ast.FunctionDef) and d is not f.node}
+    for n in ast.walk(f.node):
+        if isinstance(n, ast.Call) and isinstance(n.func, ast.Name) and n.func.id in inner:
+            pcs = [c for c in ast.walk(inner[n.func.id]) if isinstance(c, ast.Call) and T.call_name(c) == 'protect_html']
+            if pcs and all(neutralised(c) for c in pcs):
+                r.ok(n, 'escaped for the attribute by %s (row separators removed)' % n.func.id, nontrivial=True, sample=False)
+    for c in calls:
+        holder = next((a for a in _anc(c, f.node) if isinstance(a, ast.FunctionDef)), None)
+        # does the text come from the answer?
+        from_answer = any(isinstance(x, ast.Call) and T.call_name(x) == 'json_get' for x in ast.walk(c)) or any(
+            isinstance(x, ast.Name) and any(isinstance(v, ast.Call) and (T.call_name(v) in ('json_get', 'join'))
+                                            for v in T.resolve_local(model, x)) for x in ast.walk(c) if isinstance(x, ast.Name)) \
+            or holder is not None
+        if neutralised(c):
+            r.ok(c, 'row separators are removed again inside the attribute', nontrivial=True)
+        elif not from_answer:
+            r.ok(c, 'text without line breaks of the answer', sample=False)
+        else:
+            r.fail(c, 'text of the answer goes through protect_html into the title attribute: a line '
+                   'break in it becomes "<br>\\n", add_line_numbers sees an extra table row and '
+                   'raises IndexError', witness='"message": "one\\ntwo" in an otherwise valid answer, --output html')
+    return r
+
+
+# ----------------------------------------------------------------------------- PD9
+PD9_ALLOWED = {
+    # function -> reason (each site was read; PD3 / PD4 decide that it is guarded and paired)
+    'parser.Parser.expand_verb_env_token': 'end of an unpinned verbatim token (PD3 checks the pos_fix guard)',
+    'parser.Parser.remove_pure_action_lines': 'trim / advance pair of a cut white-space token (PD4 checks the amount)',
+}
+
+
+def pd9(model):
+    r = RuleResult('PD9', 'outside the scanner a position is never shifted by a length: parser, '
+                   'handlers and package modules take positions from tokens or from the start '
+                   'of the construct, unchanged (two enumerated trim/advance sites excepted)',
+                   floor=2)
+    posnames = {'start', 'pos', 'cur_pos', 'position'}
+    for f in model.all_funcs():
+        ms = f.mod.short
+        if isinstance(f.node, ast.Lambda) or not (ms in ('parser', 'handlers', 'mathparser') or
+                                                  ms.startswith('packages') or ms.startswith('documentclasses')):
+            continue
+        for n in iter_scope(f.node):
+            shifted = None
+            if isinstance(n, ast.BinOp) and isinstance(n.op, (ast.Add, ast.Sub)):
+                for a, b in ((n.left, n.right), (n.right, n.left)):
+                    if (isinstance(a, ast.Attribute) and a.attr == 'pos') or (isinstance(a, ast.Name) and a.id in posnames):
+                        if any(isinstance(x, ast.Call) and getattr(x.func, 'id', '') == 'len' for x in ast.walk(b)):
+                            shifted = (a, b)
+            elif isinstance(n, ast.AugAssign) and isinstance(n.op, (ast.Add, ast.Sub)):
+                a, b = n.target, n.value
+                if (isinstance(a, ast.Attribute) and a.attr == 'pos') or (isinstance(a, ast.Name) and a.id in posnames):
+                    if not isinstance(b, ast.Constant):
+                        shifted = (a, b)
+            if shifted is None:
+                continue
+            if f.qname in PD9_ALLOWED:
+                r.ok(n, 'enumerated site: ' + PD9_ALLOWED[f.qname], nontrivial=True)
+            else:
+                r.fail(n, 'the position %s is shifted by the length %s: positions of generated tokens '
+                       'then lie behind the construct they belong to, at the end of the text outside it'
+                       % (unparse(shifted[0]), unparse(shifted[1])[:40]),
+                       witness='a macro whose argument is absent as the very last token of the text')
+    return r
+
+
+# ----------------------------------------------------------------------------- NL1
+def nl1(model):
+    r = RuleResult('NL1', '\\\\ consumes nothing but its optional [..]: in parse_newline_option every '
+                   'read from the buffer is guarded by the test that the next token is [',
+                   floor=2)
+    f = model.func('parser.Parser.parse_newline_option')
+    bufname = f.params[1] if len(f.params) > 1 else 'buf'
+    for n in iter_scope(f.node):
+        if isinstance(n, ast.Call) and ((isinstance(n.func, ast.Attribute) and unparse(n.func.value) == bufname
+                                         and n.func.attr in ('next', 'skip_space', 'back'))
+                                        or T.call_name(n) == 'arg_buffer'):
+            ok = guards.has_fact(n, lambda e, t: t and isinstance(e, ast.Compare) and isinstance(e.ops[0], ast.Eq)
+                                 and T.is_const(e.comparators[0], '[') and unparse(e.left).endswith('.txt'))
+            if ok:
+                r.ok(n, '%s only if the next token is [' % unparse(n.func)[-12:], nontrivial=True)
+            else:
+                r.fail(n, 'parse_newline_option consumes tokens (%s) without knowing that the next '
+                       'token is [: characters behind \\\\ vanish' % unparse(n)[:40],
+                       witness='A\\\\*B  /  Notes:\\\\ followed by a line that starts with *')
+    return r
+
+
+# ----------------------------------------------------------------------------- RX6
+def rx6(model):
+    import re._parser as sre_parse
+    import re._constants as sre_c
+    r = RuleResult('RX6', 'a regular expression that looks at its left context (\\b, \\B, ^, '
+                   'look-behind) - or whose text is not known - is never applied to a slice '
+                   's[k:]: the slice hides the characters in front of k', floor=0)
+
+    def context_sensitive(items):
+        for op, av in items:
+            if op is sre_c.AT and av in (sre_c.AT_BOUNDARY, sre_c.AT_NON_BOUNDARY, sre_c.AT_BEGINNING_LINE,
+                                         sre_c.AT_UNI_BOUNDARY, sre_c.AT_UNI_NON_BOUNDARY):
+                return True
+            if op in (sre_c.ASSERT, sre_c.ASSERT_NOT) and av[0] < 0:
+                return True
+            if op in (sre_c.MAX_REPEAT, sre_c.MIN_REPEAT) and context_sensitive(list(av[2])):
+                return True
+            if op is sre_c.SUBPATTERN and context_sensitive(list(av[3])):
+                return True
+            if op is sre_c.BRANCH and any(context_sensitive(list(x)) for x in av[1]):
+                return True
+        return False
+    for m in model.mods.values():
+        for n in ast.walk(m.tree):
+            if not (isinstance(n, ast.Call) and T.call_name(n) in ('search', 'match', 'finditer', 'fullmatch', 'findall', 'sub')):
+                continue
+            rc = model.resolve_call(n)
+            if not (rc and rc[0] == 'ext' and rc[1].startswith('re.')):
+                continue
+            subj = n.args[2] if T.call_name(n) == 'sub' and len(n.args) > 2 else (n.args[1] if len(n.args) > 1 else None)
+            if not (isinstance(subj, ast.Subscript) and isinstance(subj.slice, ast.Slice) and subj.slice.lower is not None
+                    and not T.is_const(subj.slice.lower, 0)):
+                continue
+            pat = n.args[0]
+            lits = [pat] if isinstance(pat, ast.Constant) else (
+                T.resolve_local(model, pat) if isinstance(pat, ast.Name) else [pat])
+            if lits and all(isinstance(v, ast.Constant) and isinstance(v.value, str) for v in lits):
+                bad = False
+                for v in lits:
+                    try:
+                        bad = bad or context_sensitive(list(sre_parse.parse(v.value)))
+                    except Exception:
+                        bad = True
+                if bad:
+                    r.fail(n, 'the pattern %r looks at its left context but is applied to the slice %s'
+                           % (lits[0].value, unparse(subj)), witness='a match directly behind the slice point')
+                else:
+                    r.ok(n, 'context-free pattern on a slice', nontrivial=True)
+            else:
+                r.fail(n, 'the pattern %s is not a literal (it may begin with \\b) and is applied to the '
+                       'slice %s: the word boundary is then always satisfied at the slice point'
+                       % (unparse(pat)[:30], unparse(subj)),
+                       witness="rule 'v2 & version 2' on the text 'v2v2'")
+    return r
+
+
+# ----------------------------------------------------------------------------- ML9
+def ml9(model):
+    r = RuleResult('ML9', 'the placeholder for a short foreign-language inclusion is mapped to the '
+                   'first non-blank character of the inclusion (the index found by the search for a '
+                   'non-space character), not to its first character', floor=1)
+    f = model.func('utils.ml_append_placeholder')
+    hit = False
+    for n in iter_scope(f.node):
+        if isinstance(n, ast.BinOp) and isinstance(n.op, ast.Mult) and isinstance(n.left, ast.List) \
+                and len(n.left.elts) == 1 and isinstance(n.left.elts[0], ast.Subscript):
+            sub = n.left.elts[0]
+            if not unparse(sub.value).endswith('pos') and not (isinstance(sub.value, ast.Name) and any(
+                    isinstance(v, ast.Attribute) and v.attr == 'pos' for v in T.resolve_local(model, sub.value))):
+                continue
+            hit = True
+            idx = sub.slice
+            vals = T.resolve_local(model, idx) if isinstance(idx, ast.Name) else [idx]
+            ok = bool(vals) and all(isinstance(v, ast.Call) and getattr(v.func, 'id', '') == 'next'
+                                    and any(isinstance(x, ast.Call) and T.call_name(x) == 'isspace' for x in ast.walk(v))
+                                    for v in vals)
+            if ok:
+                r.ok(n, 'placeholder positions = position of the first non-blank character', nontrivial=True)
+            else:
+                r.fail(n, 'the placeholder is mapped to %s, not to the first non-blank character of the '
+                       'inclusion: a message on the placeholder points at the white space in front of '
+                       'the foreign words' % unparse(sub),
+                       witness='\\foreignlanguage{german}{ followed by a line break and indentation')
+    if not hit:
+        r.undec(f.node, 'position list of the placeholder not recognised')
+        r.instances = 1
+    return r
+
+
+# ----------------------------------------------------------------------------- EN2 / PS6 / TH7
+def en2(model):
+    r = RuleResult('EN2', 'report generators encode text for byte arithmetic only with UTF-8 (or '
+                   'with an error handler): text of the answer or of the file need not be '
+                   'representable in the encoding of the input file', floor=0)
+    for m in model.mods.values():
+        if not m.short.startswith('shell.gen'):
+            continue
+        for n in ast.walk(m.tree):
+            if isinstance(n, ast.Call) and isinstance(n.func, ast.Attribute) and n.func.attr == 'encode':
+                args = list(n.args) + [k.value for k in n.keywords if k.arg == 'encoding']
+                errs = [k for k in n.keywords if k.arg == 'errors'] or n.args[1:2]
+                if not args or all(isinstance(a, ast.Constant) and str(a.value).lower().replace('-', '') == 'utf8' for a in args[:1]):
+                    r.ok(n, 'UTF-8', sample=False)
+                elif errs:
+                    r.ok(n, 'encoding with an error handler', nontrivial=True)
+                else:
+                    r.fail(n, 'text is encoded with %s without an error handler: a character outside '
+                           'that encoding (an en dash generated by the filter, any character of a '
+                           'message) ends in UnicodeEncodeError' % unparse(args[0]),
+                           witness='--output xml-b --encoding latin-1 and a file that contains --')
+    return r
+
+
+def ps6(model):
+    r = RuleResult('PS6', 'the options object cmdline is read-only once the shell has started: no '
+                   'function that runs per file or per request assigns an attribute of it', floor=0)
+    for f in model.all_funcs():
+        if isinstance(f.node, ast.Lambda) or not f.mod.short.startswith('shell'):
+            continue
+        for n in iter_scope(f.node):
+            tg = []
+            if isinstance(n, ast.Assign):
+                tg = n.targets
+            elif isinstance(n, (ast.AugAssign, ast.AnnAssign)):
+                tg = [n.target]
+            for t in tg:
+                if isinstance(t, ast.Attribute) and isinstance(t.value, ast.Name) and t.value.id == 'cmdline':
+                    r.fail(n, '%s assigns cmdline.%s: the value computed for one file / request is '
+                           'used for all later ones' % (f.name, t.attr),
+                           witness='--context -1 with two files of different length')
+    r.instances = max(r.instances, 1)
+    return r
+
+
+def th7(model):
+    r = RuleResult('TH7', 'the "single backslash" extension of a highlight is applied only to a span '
+                   'of length 1: the length handed to correct_mark_macroname is the length of the '
+                   'span', floor=1)
+    f = model.func('shell.genhtml.generate_html')
+    calls = [n for n in iter_scope(f.node) if isinstance(n, ast.Call) and T.call_name(n) == 'correct_mark_macroname']
+    if not calls:
+        r.undec(f.node, 'call of correct_mark_macroname not found')
+        r.instances = 1
+    for c in calls:
+        if len(c.args) < 2:
+            continue
+        ln = c.args[1]
+        if isinstance(ln, ast.Constant):
+            k = ln.value
+            def pred(e, t):
+                if not (t and isinstance(e, ast.Compare) and isinstance(e.ops[0], ast.Eq)):
+                    return False
+                txt = (unparse(e.left) + '==' + unparse(e.comparators[0])).replace(' ', '')
+                return txt in ('h.end==h.beg+%d' % k, 'h.end-h.beg==%d' % k, 'h.beg+%d==h.end' % k)
+            if guards.has_fact(c, pred):
+                r.ok(c, 'literal length %d under the test that the span has this length' % k, nontrivial=True)
+            else:
+                r.fail(c, 'correct_mark_macroname is told that the span has length %d, but nothing tests '
+                       'that: every match that begins at a backslash is cut down to the macro name' % k,
+                       witness='a match on \\"Ubelx or on \\ae ther')
+        elif unparse(ln).replace(' ', '') in ('h.end-h.beg',):
+            r.ok(c, 'the span length is passed', nontrivial=True)
+        else:
+            r.undec(c, 'length argument not recognised')
+    return r
